@@ -39,3 +39,17 @@ package trie
 //@   props C32
 //@   light
 //@   assert[adds-under-given-id] before call fix : arg0 == t && arg2 == id && arg3 == set
+
+// A node may be pruned only when nothing hangs below it: no children, no ids and no ignore
+// branch.
+//@ func (*node).isEmpty
+//@   props C32
+//@   requires n != nil
+//@   ensures[nothing-below] result <==> (len(n.children) == 0 && len(n.ids) == 0 && n.ignore == nil)
+//@   assigns nothing
+
+//@ func removeEmpty
+//@   props C32
+//@   light
+//@   assert[child-pruned-only-if-empty] before call delete : ret(removeEmpty#2)
+//@   assert[verdict-of-this-node] before return : result == ret(isEmpty#1)
